@@ -32,3 +32,8 @@
 	(((n) > 0 && SUB_PREFIX(t0, body, blen)) || ((n) > 1 && SUB_PREFIX(t1, body, blen)) || \
 	    ((n) > 2 && SUB_PREFIX(t2, body, blen)))
 #endif
+#define SUB_PREFIX_Q(t, body, blen)                                          \
+	((t)->len <= (blen) && __CPROVER_forall { size_t vp_i; (vp_i < SUB_MAXTOPIC) ==> (vp_i >= (t)->len || ((const uint8_t *) (t)->buf)[vp_i] == ((const uint8_t *) (body))[vp_i]) })
+#define SUB_ORACLE_Q(n, t0, t1, t2, body, blen)                              \
+	(((n) > 0 && SUB_PREFIX_Q(t0, body, blen)) || ((n) > 1 && SUB_PREFIX_Q(t1, body, blen)) || \
+	    ((n) > 2 && SUB_PREFIX_Q(t2, body, blen)))
